@@ -77,6 +77,8 @@ pub enum Op {
     Panic(i64),
     /// build, run and drop a nested simulation (threads, models) inside the handler
     Nested(usize, usize),
+    /// the same, but the nested model panics while handling its event (the error is handled here)
+    NestedPanic(usize, usize),
 }
 #[derive(Clone, Debug)]
 pub struct MSpec {
@@ -234,6 +236,10 @@ impl<'a> P<'a> {
             "nst" => {
                 let t = self.us();
                 Op::Nested(t, self.us())
+            }
+            "nsp" => {
+                let t = self.us();
+                Op::NestedPanic(t, self.us())
             }
             t => panic!("op {}", t),
         }
@@ -445,6 +451,10 @@ impl NM {
     async fn ping(&mut self) {
         NM_STATS[3].fetch_add(1, std::sync::atomic::Ordering::SeqCst);
     }
+    async fn boom(&mut self) {
+        NM_STATS[3].fetch_add(1, std::sync::atomic::Ordering::SeqCst);
+        std::panic::panic_any(PanicCode(-1));
+    }
 }
 impl Model for NM {}
 impl Drop for NM {
@@ -452,7 +462,7 @@ impl Drop for NM {
         NM_STATS[1].fetch_add(1, std::sync::atomic::Ordering::SeqCst);
     }
 }
-fn nested(threads: usize, k: usize) {
+fn nested(threads: usize, k: usize, panics: bool) {
     use std::sync::atomic::Ordering::SeqCst;
     let mut init = SimInit::with_num_threads(threads);
     let mut first = None;
@@ -467,7 +477,12 @@ fn nested(threads: usize, k: usize) {
     NM_STATS[2].fetch_add(1, SeqCst);
     if let Ok((mut simu, _sched)) = init.init(MonotonicTime::EPOCH) {
         if let Some(a) = first {
-            let _ = simu.process_event(NM::ping, (), &a);
+            if panics {
+                // the nested model panics: the nested simulation reports it, the enclosing handler goes on
+                let _ = simu.process_event(NM::boom, (), &a);
+            } else {
+                let _ = simu.process_event(NM::ping, (), &a);
+            }
         }
     }
 }
@@ -595,7 +610,8 @@ impl SM {
                 Op::Panic(c) => {
                     std::panic::panic_any(PanicCode(*c));
                 }
-                Op::Nested(t, k) => nested(*t, *k),
+                Op::Nested(t, k) => nested(*t, *k, false),
+                Op::NestedPanic(t, k) => nested(*t, *k, true),
             }
         }
     }
